@@ -46,4 +46,14 @@ func init() {
 	addExplanation("C17", "(R7, addition) option parsing starts no goroutine.")
 	addExplanation("C18", "(R4, addition) option parsing starts no goroutine.")
 	addExplanation("C20", "(R3, closed classes) the transient class holds only would-block / timeout / interruption / reset, the fatal class only closed-or-broken-socket errors (oracle table in the rule); (R4) every ReadPacketData that delegates returns exactly its delegate's three results, and the rate-limit adapter declares no reader of its own.")
+	// batch 7 (library-contract misuse, sibling drift)
+	addExplanation("C01", "(R10, additions) the sender writes each built frame once and before its buffer returns to the pool (C07.R1/R2 sender clauses); (R11) the exclusion stage is wired into every target mode of every scan type and drops exactly the covered addresses (C02.R3/R4 re-evaluated).")
+	addExplanation("C02", "(R2, addition) a target argument that is present is always handed to the IPv4-only parser: in every function of package command that parses an element of its []string parameter, a returning path without the parser call fails or is taken only with an empty argument list; (R8) generated addresses lie inside the subnet: masked base, exact size, fixed 4-byte rendering (C01.R5 re-evaluated).")
+	addExplanation("C03", "(R6, addition) every gopacket parser built in pkg/scan has IgnoreUnsupported stored true on every path from NewDecodingLayerParser to the return of the function that built it: replies carrying bytes behind the transport header still decode.")
+	addExplanation("C07", "(R7) the stages between generator and builders forward every request, failed ones included, exactly once (C13.R3 decorator clauses).")
+	addExplanation("C08", "(R8) no de-duplicating logger is reachable from a socks / docker / elastic command.")
+	addExplanation("C11", "(R1, addition) the arp command's logger gets the JSON writer exactly when --json is set on every option combination (C14.R6 re-evaluated).")
+	addExplanation("C12", "(R3, additions) the SOCKS5 connect is DialContext on the scan's context and every HTTP request of the docker / elastic probes carries a context derived from it (C09.R2 dial clause, C10.R3 request clauses); (R5) every Scanner.Scan returns, whenever its error may be nil, nil or a freshly allocated record - never an interface around a possibly nil pointer.")
+	addExplanation("C17", "(R7, addition) the parse step a command calls reaches the derivation of every derived options field the command goes on to read: a parseRawOptions that shadows the embedded one without delegating to it is reported.")
+	addExplanation("C18", "(R8) ip.ParseIPNet accepts IPv4 hosts and IPv4 CIDR blocks only (C02.R1 typestate) and --ports with --ports-file denotes the union of both in either option family (C01.R9).")
 }
